@@ -224,6 +224,249 @@ def every_element_document(dsl_text, version=(1, 71), repeat=1):
                  "lines": out.count("\n")}
 
 
+# ---------------------------------------------------------------------------------------------- single deviations (C04)
+
+VERSIONS = [(1, 50), (1, 51), (1, 60), (1, 61), (1, 70), (1, 71)]
+
+
+class FocusGen(DocGen):
+    """document that contains only the path from the root to one occurrence of `tag` inside `parent` (ancestors carry
+    their parameters and required sub-elements, nothing optional), and the element itself in the requested form"""
+
+    def __init__(self, enums, blocks, version, parents):
+        DocGen.__init__(self, enums, blocks, version, 1)
+        self.parents = parents
+
+    def path_to(self, parent):
+        path = [parent]
+        seen = {parent}
+        while path[0] != "PROJECT":
+            ps = [p for p in self.parents.get(path[0], []) if p not in seen and p != "A2L_FILE"]
+            if not ps:
+                return None
+            # prefer parents that are not version gated
+            path.insert(0, ps[0])
+            seen.add(ps[0])
+        return path
+
+    def head(self, tag, drop_last=False, bad_enum=False, new_enum=None):
+        b = self.blocks[tag]
+        vals = []
+        for f in b.fields:
+            if isinstance(f, Param):
+                if f.dim:
+                    vals += [self.value(f.ty, f.name) for _ in range(f.dim)]
+                elif f.ty in self.enums and bad_enum:
+                    vals.append("NOT_A_VALUE_OF_THE_ENUM")
+                    bad_enum = False
+                elif f.ty in self.enums and new_enum and f.ty == new_enum[0]:
+                    vals.append(new_enum[1])
+                    new_enum = None
+                else:
+                    vals.append(self.value(f.ty, f.name))
+            elif isinstance(f, Seq):
+                for p in f.params:
+                    vals.append(self.value(p.ty, p.name))
+        if drop_last and vals:
+            vals = vals[:-1]
+        return vals
+
+    def required_children(self, tag, skip=None):
+        out = []
+        for f in self.blocks[tag].fields:
+            if isinstance(f, Ref) and f.mult in "!+" and self.in_version(f.vlow, f.vup):
+                for n in f.names:
+                    if n != skip and n in self.blocks:
+                        out.append(n)
+        return out
+
+    def render(self, tag, indent, inner="", form=None, **kw):
+        b = self.blocks[tag]
+        is_block = b.is_block if form is None else form
+        pad = " " * indent
+        if tag in ("A2ML", "IF_DATA"):
+            return self.element(tag, indent // 2)
+        t = pad + ("/begin " if is_block else "") + " ".join([tag] + self.head(tag, **kw)) + "\n" + inner
+        if is_block:
+            t += pad + "/end " + tag + "\n"
+        return t
+
+    def document(self, path, leaf_text):
+        """path: [PROJECT, ..., parent]; leaf_text: rendered children of parent"""
+        inner = leaf_text
+        for depth in range(len(path) - 1, -1, -1):
+            tag = path[depth]
+            below = path[depth + 1] if depth + 1 < len(path) else None
+            req = "".join(self.render(r, 2 * (depth + 1), "".join(self.render(rr, 2 * (depth + 2)) for rr in self.required_children(r)))
+                          for r in self.required_children(tag, skip=below) if r not in leaf_text.split())
+            inner = self.render(tag, 2 * depth, inner + req)
+        return "ASAP2_VERSION %d %d\n" % self.version + inner
+
+
+def deviation_documents(dsl_text):
+    """-> list of dicts {text, kind, element, parent, expect: ParserError variant, hard: bool, version}"""
+    enums, blocks = parse_dsl(dsl_text)
+    parents = {}
+    for tag, b in blocks.items():
+        for f in b.fields:
+            if isinstance(f, Ref):
+                for n in f.names:
+                    parents.setdefault(n, [])
+                    if tag not in parents[n]:
+                        parents[n].append(tag)
+    docs = []
+    seen_blocks = set()
+    for ptag in sorted(blocks):
+        pb = blocks[ptag]
+        if ptag == "A2L_FILE" or id(pb) in seen_blocks and False:
+            continue
+        for f in pb.fields:
+            if not isinstance(f, Ref):
+                continue
+            for tag in f.names[:1]:
+                if tag not in blocks or tag in ("A2ML", "IF_DATA"):
+                    continue
+                b = blocks[tag]
+                base_version = (1, 71)
+                if f.vup and base_version > f.vup:
+                    base_version = f.vup
+
+                def make(kind, expect, hard, version=base_version, count=1, **kw):
+                    g = FocusGen(enums, blocks, version, parents)
+                    path = g.path_to(ptag)
+                    if path is None:
+                        return
+                    # ancestors must exist at this version
+                    for a, c in zip(path, path[1:] + [tag]):
+                        for ff in blocks[a].fields:
+                            if isinstance(ff, Ref) and c in ff.names and not g.in_version(ff.vlow, None) and c != tag:
+                                return
+                    form = kw.pop("form", None)
+                    leaf = "".join(g.render(tag, 2 * len(path), "".join(g.render(r, 2 * (len(path) + 1)) for r in g.required_children(tag)), form=form, **kw)
+                                   for _ in range(count))
+                    docs.append({"text": g.document(path, leaf), "kind": kind, "element": tag, "parent": ptag, "expect": expect, "hard": hard,
+                                 "version": "%d.%02d" % version})
+
+                make("valid", "", False)
+                plain = [x for x in b.fields if not isinstance(x, Ref)]
+                # an element (or its parent) with an open-ended identifier list swallows whatever follows: the
+                # deviation is still a fault, but its class depends on what the list consumed
+                has_seq = any(isinstance(x, Seq) for x in b.fields)
+                parent_seq = any(isinstance(x, Seq) for x in pb.fields)
+                if plain and isinstance(plain[-1], Param):
+                    make("missing_parameter", "*", True, drop_last=True)
+                if f.mult in "?!" and not has_seq:
+                    make("too_many", "InvalidMultiplicityTooMany", False, count=2)
+                make("wrong_block_form", "*" if (parent_seq or has_seq) else ("IncorrectKeywordError" if not b.is_block else "IncorrectBlockError"), True, form=not b.is_block)
+                if any(isinstance(x, Param) and x.ty in enums and not x.dim for x in b.fields):
+                    make("unknown_enum_value", "InvalidEnumValue", True, bad_enum=True)
+                if f.vlow:
+                    older = [v for v in VERSIONS if v < f.vlow]
+                    if older:
+                        make("too_new", "BlockRefTooNew", False, version=older[-1])
+                    if f.vlow in VERSIONS and f.vlow != base_version:
+                        make("valid", "", False, version=f.vlow)       # exactly at the lower bound: no diagnostic
+                if f.vup:
+                    newer = [v for v in VERSIONS if v > f.vup]
+                    if newer:
+                        make("deprecated", "BlockRefDeprecated", False, version=newer[0])
+                for x in b.fields:
+                    if isinstance(x, Param) and x.ty in enums and not x.dim:
+                        for val, lo, up in enums[x.ty]:
+                            if lo:
+                                older = [v for v in VERSIONS if v < lo and (not f.vlow or v >= f.vlow)]
+                                if older:
+                                    make("enum_value_too_new", "EnumRefTooNew", False, version=older[-1], new_enum=(x.ty, val))
+                                if lo in VERSIONS and lo != (1, 71) and (not f.vlow or lo >= f.vlow):
+                                    make("valid", "", False, version=lo, new_enum=(x.ty, val))   # enum value exactly at its lower bound
+                        break
+        # required sub-element missing
+        for f in pb.fields:
+            if isinstance(f, Ref) and f.mult in "!+" and ptag not in ("A2L_FILE",):
+                g = FocusGen(enums, blocks, (1, 71), parents)
+                gp = [p for p in parents.get(ptag, []) if p != "A2L_FILE"]
+                if ptag != "PROJECT" and not gp:
+                    continue
+                path = g.path_to(gp[0]) if ptag != "PROJECT" else []
+                if path is None:
+                    continue
+                others = "".join(g.render(r, 2 * (len(path) + 1)) for r in g.required_children(ptag, skip=f.names[0]))
+                leaf = g.render(ptag, 2 * len(path), others)
+                text = g.document(path, leaf) if path else "ASAP2_VERSION 1 71\n" + leaf
+                docs.append({"text": text, "kind": "required_missing", "element": f.names[0], "parent": ptag, "expect": "InvalidMultiplicityNotPresent",
+                             "hard": False, "version": "1.71"})
+    return docs
+
+
+def gated_documents(dsl_text):
+    """documents for version-gated elements / enum values with the file version left open:
+    -> list of (text_before_minor_version, text_after, lower bound as 100*major+minor or 0, upper bound or 0, kind)"""
+    docs = deviation_documents(dsl_text)
+    enums, blocks = parse_dsl(dsl_text)
+    out = []
+    seen = set()
+    for d in docs:
+        if d["kind"] not in ("too_new", "enum_value_too_new", "deprecated"):
+            continue
+        key = (d["kind"], d["element"], d["parent"], d["text"].split("\n", 1)[1])
+        if key in seen:
+            continue
+        seen.add(key)
+        pb = blocks[d["parent"]]
+        ref = next(f for f in pb.fields if isinstance(f, Ref) and d["element"] in f.names)
+        lo = up = 0
+        if d["kind"] == "too_new":
+            lo = ref.vlow[0] * 100 + ref.vlow[1]
+        elif d["kind"] == "deprecated":
+            up = ref.vup[0] * 100 + ref.vup[1]
+        else:
+            b = blocks[d["element"]]
+            val = None
+            for x in b.fields:
+                if isinstance(x, Param) and x.ty in enums and not x.dim:
+                    toks = d["text"].split()
+                    for v, vlo, vup in enums[x.ty]:
+                        if vlo and v in toks:
+                            val = (v, vlo)
+                    break
+            if not val:
+                continue
+            lo = val[1][0] * 100 + val[1][1]
+            if ref.vlow and ref.vlow[0] * 100 + ref.vlow[1] > 150:
+                continue        # element itself gated as well: two bounds interact, left to the fixed-version documents
+        # ancestors / other values must be valid at every version: regenerate the body at the oldest version
+        first, rest = d["text"].split("\n", 1)
+        out.append((rest, lo, up, d["kind"], d["element"], d["parent"]))
+    return out
+
+
+def gated_module(gdocs):
+    out = ["pub(crate) const N_GATED: u32 = %d;" % len(gdocs),
+           "/// (document without its ASAP2_VERSION line, lower bound, upper bound (100*major+minor, 0 = none), kind)",
+           "pub(crate) fn gated_doc(k: u32) -> (&'static str, u32, u32, &'static str) {", "    match k {"]
+    for i, (rest, lo, up, kind, el, par) in enumerate(gdocs):
+        out.append("        %d => (%s, %d, %d, %s)," % (i, rust_str(rest), lo, up, rust_str(kind)))
+    out.append('        _ => ("", 0, 0, ""),')
+    out.append("    }\n}")
+    return "\n".join(out) + "\n"
+
+
+def rust_str(s):
+    return '"' + s.replace("\\", "\\\\").replace('"', '\\"').replace("\n", "\\n") + '"'
+
+
+def deviation_module(docs):
+    out = ["// generated by /verif/vf/dslgen.py from the frozen reference grammar /verif/reference/a2l_grammar_dsl.txt",
+           "pub(crate) const N_DEV: u32 = %d;" % len(docs),
+           "/// (document, deviation kind, expected ParserError variant ('' = none, '*' = any), hard fault in both modes)",
+           "pub(crate) fn dev_doc(k: u32) -> (&'static str, &'static str, &'static str, bool) {", "    match k {"]
+    for i, d in enumerate(docs):
+        out.append("        %d => (%s, %s, %s, %s)," % (i, rust_str(d["text"]), rust_str(d["kind"]), rust_str(d["expect"]), "true" if d["hard"] else "false"))
+    out.append('        _ => ("", "", "", false),')
+    out.append("    }\n}")
+    return "\n".join(out) + "\n"
+
+
 # ---------------------------------------------------------------------------------------------- fingerprint module
 
 INT_TYPES = ("u8", "u16", "u32", "u64", "usize", "i8", "i16", "i32", "i64", "isize")
@@ -334,6 +577,14 @@ if __name__ == "__main__":
     doc, info = every_element_document(dsl_body(open(root + "/a2lfile/src/specification_orig.rs").read()))
     print(info)
     open("/var/tmp/w/every_element.a2l", "w").write(doc)
+    devs = deviation_documents(dsl_body(open(root + "/a2lfile/src/specification_orig.rs").read()))
+    import collections
+    print(len(devs), collections.Counter(d["kind"] for d in devs))
+    gd = gated_documents(dsl_body(open(root + "/a2lfile/src/specification_orig.rs").read()))
+    print("gated", len(gd), collections.Counter(g[3] for g in gd))
+    open("/var/tmp/w/verif_dev.rs", "w").write(deviation_module(devs) + gated_module(gd))
+    import json
+    json.dump(devs, open("/var/tmp/w/devs.json", "w"))
     mod, info2 = fingerprint_module(open(root + "/a2lfile/src/specification.rs").read())
     print(info2)
     open("/var/tmp/w/verif_fp.rs", "w").write(mod)
